@@ -26,7 +26,8 @@ pub struct Violation {
 }
 
 pub const MAX_SAMPLES: usize = 6;
-pub const MAX_VIOLATIONS_KEPT: usize = 4096;
+pub const MAX_VIOLATIONS_KEPT: usize = 1 << 16;
+pub const KEEP_PER_SIGNATURE: u64 = 3;
 
 #[derive(Default, Clone, Debug)]
 pub struct Stats {
@@ -40,6 +41,9 @@ pub struct Stats {
     pub histories: Vec<u64>,
     pub samples: Vec<(u64, Value)>,
     pub violations: Vec<Violation>,
+    /// Occurrences per (declaration, cause signature); only the first few of each are kept in
+    /// `violations`, so a flood of one (e.g. known) finding can never crowd out another.
+    pub violation_counts: BTreeMap<(String, String), u64>,
     /// (run_index, event-log hash, verdict code): only filled in selfcheck mode.
     pub trace: Vec<(u64, u64, u8)>,
     pub keep_trace: bool,
@@ -72,10 +76,14 @@ impl Stats {
         }
     }
     pub fn violation(&mut self, v: Violation) {
-        if self.violations.len() < MAX_VIOLATIONS_KEPT {
-            self.violations.push(v);
-        } else {
-            self.inc("violations_dropped_over_cap");
+        let c = self.violation_counts.entry((v.decl.clone(), v.signature.clone())).or_insert(0);
+        *c += 1;
+        if *c <= KEEP_PER_SIGNATURE {
+            if self.violations.len() < MAX_VIOLATIONS_KEPT {
+                self.violations.push(v);
+            } else {
+                self.inc("violations_dropped_over_cap");
+            }
         }
     }
     pub fn compact(&mut self) {
@@ -99,6 +107,9 @@ impl Stats {
         self.samples.sort_by_key(|s| s.0);
         self.samples.truncate(MAX_SAMPLES);
         self.violations.append(&mut o.violations);
+        for (k, v) in o.violation_counts {
+            *self.violation_counts.entry(k).or_insert(0) += v;
+        }
         self.violations.sort_by(|a, b| (a.run_index, &a.invariant).cmp(&(b.run_index, &b.invariant)));
         self.trace.append(&mut o.trace);
         self.trace.sort_unstable();
